@@ -9,6 +9,8 @@ mod c12;
 mod c13;
 mod c16;
 mod c17;
+mod c18;
+mod c20;
 
 fn main() {
     let args: Vec<String> = std::env::args().collect();
@@ -22,6 +24,8 @@ fn main() {
         "c13" => c13::run(&rest),
         "c16" => c16::run(&rest),
         "c17" => c17::run(&rest),
+        "c18" => c18::run(&rest),
+        "c20" => c20::run(&rest),
         _ => {
             eprintln!("usage: kreplay <c08|...> [args]");
             std::process::exit(2);
